@@ -25,6 +25,11 @@ CLAIMED = {
    note="Trusted: the reference Demon codec (AES-CTR via Go's crypto/aes, pipe frame from TransportSmb.c). Quick replays a seeded sample of 400 of the 1466 configurations, thorough all of them. Ids inside a class are sampled, not enumerated.",
    technique="TLA+ frame algebra + exhaustive TLC; all configurations replayed into the real code; TLC trace validation",
    design="DESIGN.md §5 C08"),
+ "C03": dict(
+   text="Two specifications. Wire.tla gives the reader semantics (bytes needed per typed field, when the pre-flight check must succeed, where the cursor ends) over every field list of <= 3 fields (int32, int64, bool, byte strings of 0..3 bytes, NUL-terminated and UTF-16LE text) x every residue 0..9 x every cut point; TLC enumerates all cases and each is executed on the real parser with boundary values from the independent Demon-side encoder (quick: a 6000-case seeded slice of the 2-field model; thorough: all ~63k cases of the 3-field model). Sessions.tla models the session table under registration (header id / inner id / key / metadata combinations incl. header id 0 and the zero key), re-registration, check-in and metadata refresh, with UniqueIds, MetaAsSent, RegCreatesOne as invariants and IdImmutable as an action property; its complete state space is checked and all length-2 sequences plus seeded walks are replayed as real packets, the table being projected after every step and validated by TLC (strict + monitor).",
+   note="Trusted: the Demon-side encoder (refdemon), Go's unicode/utf16 as the meaning of UTF-16. Console text is compared only where other checks read it (sleep, pivot messages); the operator-visible copy of a new session is covered by C11's replay checks.",
+   technique="TLA+ specs + exhaustive TLC; model-enumerated cases and behaviours executed on the real parser/server; TLC trace validation",
+   design="DESIGN.md §5 C03"),
 }
 NOT_BUILT = "machinery not built yet (construction order in DESIGN.md §8); not claimed until its check runs clean on the unchanged tree"
 
